@@ -131,8 +131,34 @@ class Units:
             return self.unit(e.operand)
         return None
 
+    IDENT_ATTRS = {'id', 'name', 'arg', 'attr', 'asname', 'rest', 'module', 'src'}
+
+    def _text_vars(self):
+        """Locals bound from an identifier-typed AST field or from source text (identifiers may be non-ASCII)."""
+        tv = getattr(self, '_tv', None)
+        if tv is None:
+            tv = set()
+            for n in walk_no_nested(self.fn):
+                pairs = []
+                if isinstance(n, ast.Assign):
+                    pairs = [(t, n.value) for t in n.targets]
+                elif isinstance(n, ast.NamedExpr):
+                    pairs = [(n.target, n.value)]
+                for t, v in pairs:
+                    if isinstance(t, ast.Name) and isinstance(v, ast.Attribute) and v.attr in self.IDENT_ATTRS:
+                        tv.add(t.id)
+            for p in self.fi.params():
+                if p in ('src', 'text', 'line', 'source'):
+                    tv.add(p)
+            self._tv = tv
+        return tv
+
     def _is_text(self, a) -> bool:
         """Does expression `a` denote source text (a line, a slice of a line, a string built from them)?"""
+        if isinstance(a, ast.Name) and a.id in self._text_vars():
+            return True
+        if isinstance(a, ast.Attribute) and a.attr in self.IDENT_ATTRS:
+            return True
         if isinstance(a, ast.Name):
             # NOT prefix / suffix / sep / indent / quotes: delimiters, separators and indentation are ASCII, their length is unit-free
             return a.id in ('l', 'line', 'src', 'text', 's', 'lend', 'first', 'last_line') or \
